@@ -864,6 +864,41 @@ func (p *prop) runGenerated(c core.Case, w *core.Worker, res *core.Result) {
 				}
 			}
 		}
+		// the answer is a function of the function asked, not of what was asked before: a SECOND universe loaded from the
+		// same sources is asked the same questions in reverse order (so that every function of a recursive family is
+		// once the first and once the last one asked); every answer must equal the one the first universe gave
+		if i*10000+9900 >= c.Resume {
+			w.BeginSub(c.ID, i*10000+9900, "second universe, reverse order")
+			var u2 *gengotypes.Universe
+			var err2 error
+			pk2, _, _ := core.Guard(func() { u2, err2 = gengotypes.Load([]string{"example.com/c14/rx", "example.com/c14/rq"}, gengotypes.WithDir(m.Root)) })
+			if !pk2 && err2 == nil && u2.Package("example.com/c14/rq") != nil {
+				rq2 := u2.Package("example.com/c14/rq")
+				funcs2 := allFuncs(rq2)
+				byName := map[string]string{}
+				for fn, a := range firstAnswers {
+					byName[fn.FullName()] = a
+				}
+				for k := len(funcs2) - 1; k >= 0; k-- {
+					fn := funcs2[k]
+					first, ok := byName[fn.FullName()]
+					if !ok {
+						continue
+					}
+					var other gengotypes.FuncResults
+					budgetArmed, steps = true, 0
+					pk, _, _ := core.Guard(func() { other, _ = rq2.ResultsOf(fn) })
+					budgetArmed = false
+					if pk {
+						continue
+					}
+					res.Inc("answers_compared_with_a_second_universe_asked_in_reverse_order")
+					if s2 := safeString(other); s2 != first {
+						res.Fail("unstable", "generated order-dependent "+shortKey(fn.FullName(), "generated"), fmt.Sprintf("%s: the answer depends on what was asked before: asked in declaration order on one universe %s, asked in reverse order on a second universe of the same sources %s\n%s", fn.FullName(), first, s2, funcSource(src, fn.Name())), map[string]any{"func": fn.FullName()})
+					}
+				}
+			}
+		}
 		if i == 0 && len(g.lit) > 0 {
 			res.Sample(map[string]any{"literal_only_function": funcSource(src, g.lit[0].Func), "expected": g.lit[0].Want}, 1)
 		}
